@@ -28,6 +28,7 @@ import (
 	"encoding/json"
 	"fmt"
 	"io"
+	"os"
 	"runtime"
 	"strings"
 	"sync"
@@ -633,7 +634,19 @@ func c08ErrClass(s string) string {
 
 func (w *c08World) check(r *ev.Run, c c08Case, st *c08Stats) {
 	in := w.input(c)
+	probe := os.Getenv("C08_PROBE") != ""
+	var m0, m1 runtime.MemStats
+	if probe {
+		runtime.ReadMemStats(&m0)
+	}
+	t0 := time.Now()
 	v, fails := w.evaluate(c, in)
+	if probe {
+		runtime.ReadMemStats(&m1)
+		if d := time.Since(t0); d > 100*time.Millisecond || m1.TotalAlloc-m0.TotalAlloc > 16<<20 {
+			fmt.Printf("SLOW %v alloc=%dMB case=%s err=%q\n", d, (m1.TotalAlloc-m0.TotalAlloc)>>20, c.key(), c08ErrClass(v.errText))
+		}
+	}
 	if v.decoded {
 		st.decoded[c.Fam]++
 		if c.Fam != "id" {
@@ -683,6 +696,9 @@ func TestVerifC08(t *testing.T) {
 	workers := runtime.NumCPU()
 	if workers > 16 {
 		workers = 16
+	}
+	if os.Getenv("C08_PROBE") != "" {
+		workers = 1
 	}
 	total := c08NewStats()
 	var incomplete atomic.Bool
